@@ -91,6 +91,41 @@ pub(crate) mod verif_probe {
                     json!({"result": if r.is_ok() { "ok" } else { "err" }, "config_changed": before != after, "kind": kind})
                 }))
             }
+            "reload_diff" => {
+                // startup with pools {a, b}; then the file is rewritten (scenario) and reload_config runs: are the pools that are in force
+                // afterwards the ones of the new file?
+                let scenario = v["scenario"].as_str().unwrap_or("added").to_string();
+                let rt = tokio::runtime::Builder::new_current_thread().enable_all().build().unwrap();
+                Some(rt.block_on(async move {
+                    let tag = std::time::SystemTime::now().duration_since(std::time::UNIX_EPOCH).unwrap().as_nanos();
+                    let general = |ban: i64| format!("[general]\nhost = \"127.0.0.1\"\nport = 6433\nadmin_username = \"admin\"\nadmin_password = \"admin\"\nvalidate_config = false\nban_time = {}\n", ban);
+                    let section = |name: &str, port: u16| format!("\n[pools.{n}.users.0]\nusername = \"app\"\npassword = \"app\"\npool_size = 5\n\n[pools.{n}.shards.0]\nservers = [[\"127.0.0.1\", {p}, \"primary\"]]\ndatabase = \"db\"\n", n = name, p = port);
+                    let (a, b, c) = (format!("va_{}", tag), format!("vb_{}", tag), format!("vc_{}", tag));
+                    let dir = std::env::temp_dir().join(format!("verif_reload_{}", tag));
+                    std::fs::create_dir_all(&dir).unwrap();
+                    let path = dir.join("pgcat.toml");
+                    std::fs::write(&path, format!("{}{}{}", general(60), section(&a, 5432), section(&b, 5432))).unwrap();
+                    if parse(path.to_str().unwrap()).await.is_err() { return json!({"error": "baseline config does not parse"}); }
+                    let map: crate::pool::ClientServerMap = Arc::new(parking_lot::Mutex::new(std::collections::HashMap::new()));
+                    if crate::pool::ConnectionPool::from_config(map.clone()).await.is_err() { return json!({"error": "first from_config failed"}); }
+                    let new_text = match scenario.as_str() {
+                        "same" => format!("{}{}{}", general(60), section(&a, 5432), section(&b, 5432)),
+                        "changed" => format!("{}{}{}", general(60), section(&a, 6543), section(&b, 5432)),
+                        "removed" => format!("{}{}", general(60), section(&a, 5432)),
+                        "general" => format!("{}{}{}", general(61), section(&a, 5432), section(&b, 5432)),
+                        _ => format!("{}{}{}{}", general(60), section(&a, 5432), section(&b, 5432), section(&c, 5433)),
+                    };
+                    std::fs::write(&path, new_text).unwrap();
+                    let r = reload_config(map).await;
+                    let _ = std::fs::remove_dir_all(&dir);
+                    let port_of = |n: &str| crate::pool::get_pool(n, "app").map(|p| p.address(0, 0).port);
+                    let (pa, pb, pc) = (port_of(&a), port_of(&b), port_of(&c));
+                    let want = match scenario.as_str() {
+                        "changed" => (Some(6543), Some(5432), None), "removed" => (Some(5432), None, None),
+                        "same" | "general" => (Some(5432), Some(5432), None), _ => (Some(5432), Some(5432), Some(5433)) };
+                    json!({"scenario": scenario, "result": format!("{:?}", r), "pools_in_force": [pa, pb, pc], "as_in_new_file": (pa, pb, pc) == want})
+                }))
+            }
             "pool_default_validate" => {
                 let mut p = Pool::default();
                 Some(json!({"ok": p.validate().is_ok(), "shard_ids": p.shards.keys().cloned().collect::<Vec<String>>()}))
